@@ -25,9 +25,10 @@ def main():
     props = [json.loads(l)['id'] for l in open(os.path.join(ROOT, 'properties.jsonl'))]
     checks = []
     na = []
+    registered = set(open(os.path.join(ROOT, 'registered.txt')).read().split())
     for pid in props:
         path = os.path.join(ROOT, 'vlib', 'oracles', pid.lower() + '.py')
-        if not os.path.exists(path):
+        if not os.path.exists(path) or pid not in registered:
             na.append({'property_id': pid, 'reason': NOT_APPLICABLE.get(pid, 'no monitor registered for this property in this revision of the machinery (see DESIGN.md section 9)')})
             continue
         mod = importlib.import_module('vlib.oracles.' + pid.lower())
